@@ -269,8 +269,8 @@ func TestC12(t *testing.T) {
 	maxLen := 3
 	nAlpha := len(svAlphabet(1, 2, 3, 0))
 	for si, seq := range svSeqs(nAlpha, maxLen) {
-		// quick: every sequence of length <= 2 and a seeded third of those of length 3; thorough: all
-		if len(seq) == 3 && !thorough() && (uint64(si)*2654435761+uint64(*flagSeed))%3 != 0 {
+		// quick: every sequence of length <= 2 and a seeded quarter of those of length 3; thorough: all
+		if len(seq) == 3 && !thorough() && (uint64(si)*2654435761+uint64(*flagSeed))%4 != 0 {
 			idx++
 			continue
 		}
@@ -320,7 +320,7 @@ func TestC12(t *testing.T) {
 
 	// ---- thorough: a seeded sample of the sequences of length 4
 	if thorough() {
-		for i := 0; i < 4000; i++ {
+		for i := 0; i < 8000; i++ {
 			rnd := newRand(int64(40000 + i))
 			var frames []*FrameSpec
 			for pos := 0; pos < 4; pos++ {
